@@ -2,6 +2,7 @@
 """Regenerates /verif/seeded/RESULTS.md from the per-variant meta.json files and seeded/missed_first.json."""
 import json,glob,os,re
 missed_first=json.load(open('/verif/seeded/missed_first.json'))
+ood=json.load(open('/verif/seeded/out_of_domain.json'))
 rows=[]
 for d in sorted(glob.glob('/verif/seeded/*-*/')):
     name=os.path.basename(d.rstrip('/'))
@@ -11,10 +12,12 @@ for d in sorted(glob.glob('/verif/seeded/*-*/')):
     caught='rc=1' in res
     m['caught_by_quick_check']=caught
     m['round']=2 if name[-1] in 'cd' else 1
+    if name in ood:
+        m['out_of_domain']=ood[name]
     if name in missed_first:
         m['history']='missed by the quick check as first built; caught after strengthening: '+missed_first[name]
     json.dump(m,open(d+'meta.json','w'),indent=1)
-    rows.append((name,m['property'],str(m['round']),'yes' if caught else 'NO',(sig.group(1) if sig else '-').replace('|','\\|'), 'after strengthening' if name in missed_first else 'as built'))
+    rows.append((name,m['property'],str(m['round']),'yes' if caught else ('n/a (out of domain)' if name in ood else 'NO'),(sig.group(1) if sig else '-').replace('|','\\|'), 'after strengthening' if name in missed_first else 'as built'))
 out=['# Seeded changes written by independent sub-agents','',
 'Each directory holds `patch.diff` (apply with `git -C /repo apply`, undo with `git -C /repo checkout -- .`), `demo.rs` (an integration test that passes on the clean tree and fails with the patch) and `meta.json` (what was confirmed, the author\'s notes on what the change needs in order to manifest, and the result of the property\'s quick check).',
 'The authors saw only the text of one property and a private scratch worktree; nothing from /verif. Every variant was re-confirmed by `tools/seed_confirm.sh` in the scratch worktree: demo passes without the change, all 102 unit tests pass with it, demo fails with it.',
@@ -24,6 +27,7 @@ for r in rows: out.append('| '+' | '.join(r)+' |')
 n1=[r for r in rows if r[2]=='1']; n2=[r for r in rows if r[2]=='2']
 out+=['',f'{len(rows)} variants ({len(n1)} in round 1, {len(n2)} in round 2), {sum(1 for r in rows if r[3]=="yes")} caught by the current checks. {len(missed_first)} were missed by the checks as first built and led to stronger generators / oracles:','']
 for k,v in missed_first.items(): out.append(f'* **{k}** — {v}.')
+out+=['','Not caught and not expected to be:','']+[f'* **{k}** — {v}' for k,v in ood.items()]
 out+=['','Two of the round-2 misses (C14-c, C14-d) were already caught by a sibling check (C05, C06) because the broken code belongs to evaluation; C14 was strengthened nevertheless.']
 open('/verif/seeded/RESULTS.md','w').write('\n'.join(out)+'\n')
 print(len(rows),'variants,',sum(1 for r in rows if r[3]=="yes"),'caught')
